@@ -29,8 +29,10 @@ RULE = ('sets of 2-5 database chemicals (Water, Ethanol, Methanol, Propanol, Hex
         'the model; compiled call compared with py_func at 1e-12 and its x-after with the exact prediction; the direct oracle '
         '(gamma_i = 1 at x_i = 1 to 1e-9, Gibbs-Duhem by central finite differences to 1e-5 relative along every e_a - e_b, '
         'all permutations n <= 4, no-group => exactly 1, ideal models = 1, x untouched, .f = __call__, and one float64 buffer '
-        'rewritten in place between calls at the same T: obj(x,T) = obj.f(x,T,*args) = obj(x.copy(),T) at every step) is evaluated on every case; '
-        'history cases (call / call with a copy / .f / in-place rewrite of the composition / in-place rewrite of a previously RETURNED '
+        'rewritten in place between calls at the same T: obj(x,T) = obj.f(x,T,*args) = obj(x.copy(),T) at every step; obj.f on the '
+        'caller\'s own int / float32 array and on integer unit vectors; obj.activity_coefficients = functional form, repeatable, and '
+        'leaves every persistent array of the object unchanged) is evaluated on every case; '
+        'history cases (call / call with a copy / .f / activity_coefficients / in-place rewrite of the composition / in-place rewrite of a previously RETURNED '
         'array, 1-2 caller arrays, 3-10 operations on ONE object, group objects and the ideal fallback) are run '
         'exactly and compared with run_hist '
         'and must hold.  non-trivial = '
@@ -53,8 +55,8 @@ TRUSTED = [
     'modelled: chemgroups, Qs, Rs, interactions and index are read from the constructed object',
     'numba compilation: compiled results are compared with the py_func path at 1e-12 on every case where both return',
     'not modelled: GCEOSActivityCoefficients / GCEOSFugacityCoefficients (third-party thermo EOS objects), '
-    'IdealGasPoyintingCorrectionFactors (not an ideal-returns-one model), GroupActivityCoefficients.activity_coefficients '
-    '(the method that bypasses the gather/scatter wrapper), pickling (__reduce__) and the per-class object cache',
+    'IdealGasPoyintingCorrectionFactors (not an ideal-returns-one model), pickling (__reduce__) and the per-class object cache; '
+    'array dtypes (the functional form on int / float32 arrays is checked by the oracle, not by the model)',
 ]
 
 # ------------------------------------------------------------------ translator hook
@@ -285,11 +287,14 @@ def gen_cases(rng, tier):
         ops = [['call', 0, True, T], ['set', 0, pos_x(n)], ['call', 0, True, T]] if h % 2 == 0 else []
         for _ in range(rng.randint(2, 5)):
             r = rng.randrange(na)
-            k = rng.choice(['call', 'call', 'callcopy', 'f', 'set', 'set', 'setres', 'setres'])
+            k = rng.choice(['call', 'call', 'callcopy', 'f', 'set', 'set', 'setres', 'setres', 'act', 'act'])
             Tk = T if rng.random() < 0.8 else rng.choice(TS)
             if k == 'call': ops.append(['call', r, True, Tk])
             elif k == 'callcopy': ops.append(['call', r, False, Tk])
             elif k == 'f': ops.append(['f', r, Tk])
+            elif k == 'act':                             # the object form on the sub-system, then the functional form again
+                nsub = sum(1 for nm in names if nm not in NOGROUP and (CLASSES[h % 3] != 'NIST' or nm in NIST_IDS))
+                ops.append(['act', pos_x(max(nsub, 1)), Tk]); ops.append(['call', r, True, Tk])
             elif k == 'setres':                          # the caller rewrites in place an array a call returned
                 ops.append(['setres', rng.randrange(3), pos_x(n)]); ops.append(['call', r, True, Tk])
             else: ops.append(['set', r, pos_x(n)])
@@ -387,32 +392,54 @@ def exact_hist(G, case):
     with exact_session(G, case['quant']):
         data = exact_data(G)
         with patched(True):
-            for op in case['ops']:
+            for op in hist_ops(G, case):
                 try:
                     if op[0] == 'set':
                         arrays[op[1]][:] = xarray(op[2]); outs.append(None); continue
                     if op[0] == 'setres':
                         if op[1] < len(results): results[op[1]][:] = xarray(op[2])
                         outs.append(None); continue
-                    arr = arrays[op[1]]
-                    if op[0] == 'call':
-                        g = G(arr if op[2] else list(arr), XQ(F(op[3])))
+                    if op[0] == 'act':
+                        g = G.activity_coefficients(xarray(op[1]), XQ(F(op[2])))
                     else:
-                        g = G.f(arr, XQ(F(op[2])), *G.args)
+                        arr = arrays[op[1]]
+                        if op[0] == 'call':
+                            g = G(arr if op[2] else list(arr), XQ(F(op[3])))
+                        else:
+                            g = G.f(arr, XQ(F(op[2])), *G.args)
                     results.append(g)
                     outs.append(fvec(g))
                 except ZeroDivisionError:
                     outs.append('ZeroDiv')
                 except UnboundLocalError:
                     outs.append('Unbound')
-        final = {'arrays': [fvec(a) for a in arrays], 'results': [fvec(r) for r in results], 'gpsis': fmat(G._group_psis)}
+        ia = G._interactions
+        final = {'arrays': [fvec(a) for a in arrays], 'results': [fvec(r) for r in results], 'gpsis': fmat(G._group_psis),
+                 'inter': fmat(ia) if ia.ndim == 2 else [fmat(r) for r in ia]}
     return outs, final, data
+
+def hist_ops(G, case):
+    """operations of a history case that apply to this object: 'act' needs the number of members with groups, and a
+    'setres' must carry as many values as the array it rewrites holds (a result of activity_coefficients is shorter)"""
+    nsub = len(getattr(G, '_index', ()))
+    n = len(case['chems'])
+    ops, lens = [], []
+    for op in case['ops']:
+        if op[0] == 'act':
+            if not (nsub and len(op[1]) == nsub): continue
+            lens.append(nsub)
+        elif op[0] in ('call', 'f'):
+            lens.append(n)
+        elif op[0] == 'setres' and op[1] < len(lens) and lens[op[1]] != len(op[2]):
+            continue
+        ops.append(op)
+    return ops
 
 def ideal_hist(G, case):
     """the same history on an ideal object (real floats: everything is exactly 1.0 or what the caller wrote)"""
     arrays = [np.array(a, float) for a in case['arrays']]
     results = []; ops = []; outs = []
-    for op in case['ops']:
+    for op in hist_ops(G, case):
         if op[0] == 'set':
             arrays[op[1]][:] = op[2]; continue
         if op[0] == 'setres':
@@ -506,6 +533,7 @@ def _run_impl(case):
     if case['kind'] == 'hist':
         if not out['is_ideal']:
             out['outs'], out['final'], out['data'] = exact_hist(G, case)
+            out['ops_run'] = hist_ops(G, case)
         else:
             out.update(ideal_hist(G, case))
         return out
@@ -569,6 +597,7 @@ def _coq_case(case, out):
                     f'{clist([ciob(o) for o in out["iouts"]])} {clist([cqv(r) for r in out["iresults"]])})')
         d = out['data']
         def cop(o):
+            if o[0] == 'act': return f'(QAct {qlist(o[1])} {q(o[2])})'
             if o[0] == 'set': return f'(QSet {cnat(o[1])} {qlist(o[2])})'
             if o[0] == 'setres': return f'(QSetRes {cnat(o[1])} {qlist(o[2])})'
             if o[0] == 'call': return f'(QCall {cnat(o[1])} {cbool(o[2])} {q(o[3])})'
@@ -583,7 +612,8 @@ def _coq_case(case, out):
         anyz = any(o in ('ZeroDiv',) for o in out['outs'])
         return (f'({kind} && {fn} {csi(case["si"])} {inter} {cqm(d["gpsis"])} {cbm(d["mask"])} {cqv(d["qs"])} {cqv(d["rs"])} '
                 f'{cqv(d["Qs"])} {cqm(d["chemgroups"])} {cqm(d["cQfs"])} {clist(d["index"], cnat)} '
-                f'{clist([qlist(a) for a in case["arrays"]])} {clist([cop(o) for o in case["ops"]])} '
+                f'{cqm(out["final"]["inter"]) if case["cls"] == "UNIFAC" else cqm3(out["final"]["inter"])} '
+                f'{clist([qlist(a) for a in case["arrays"]])} {clist([cop(o) for o in out["ops_run"]])} '
                 f'{clist([chob(o) for o in out["outs"]])} {clist([cqv(a) for a in out["final"]["arrays"]])} '
                 f'{clist([cqv(a) for a in out["final"]["results"]])} '
                 f'{cqm(out["final"]["gpsis"])} {cbool(anyz)})')
@@ -682,6 +712,60 @@ def fresh_result_check(label, callf):
                 f'{r2.tolist()} instead of {keep.tolist()}')
     return None
 
+PERSISTENT = ['_interactions', '_group_mask', '_qs', '_rs', '_Qs', '_chemgroups', '_chem_Qfractions', '_index']
+def state_snapshot(G):
+    """the arrays a model object holds between evaluations, except the _group_psis scratch buffer"""
+    return {n: np.array(getattr(G, n), copy=True) for n in PERSISTENT if hasattr(G, n)}
+
+def state_changed(G, snap, cls, names, what):
+    for n, v in snap.items():
+        cur = np.asarray(getattr(G, n))
+        if cur.shape != v.shape or not np.array_equal(cur, v):
+            d = float(np.max(np.abs(cur.astype(float) - v.astype(float)))) if cur.shape == v.shape else float('nan')
+            return (f'object-state: {cls} model on {names}: {what} rewrote the model\'s own {n} (max change {d:.3g}); the object is '
+                    f'cached per chemical tuple, so later evaluations see the damaged table')
+    return None
+
+def object_form_check(G, cls, names, xs, T):
+    """obj.activity_coefficients (the object form on the members with groups) agrees with the functional form, can be
+    repeated, and leaves the object as it was: evaluations before and after it give the same values"""
+    idx = [int(i) for i in G._index]
+    sub = np.asarray(xs, float)[idx]
+    if float(sub.sum()) == 0. or np.any(np.asarray(xs) < 0): return None
+    sub = sub / sub.sum()
+    snap = state_snapshot(G)
+    g_before = np.asarray(G(np.array(xs, float), T), float)
+    ga = np.asarray(G.activity_coefficients(sub.copy(), T), float)
+    msg = state_changed(G, snap, cls, names, 'activity_coefficients(x, T)')
+    if msg: return msg
+    ga2 = np.asarray(G.activity_coefficients(sub.copy(), T), float)
+    g_after = np.asarray(G(np.array(xs, float), T), float)
+    if not close(ga, g_before[idx], 1e-9):
+        return (f'object-form: {cls} model on {names} at x={list(map(float, xs))}, T={T}: activity_coefficients gives {ga.tolist()} '
+                f'but the functional form gives {g_before[idx].tolist()} for the members with groups')
+    if not close(ga2, ga, 1e-12):
+        return f'object-form: {cls} model on {names}: a second activity_coefficients call gives {ga2.tolist()} instead of {ga.tolist()}'
+    if not close(g_after, g_before, 1e-12):
+        return (f'history: {cls} model on {names}: after one activity_coefficients call obj(x, T) gives {g_after.tolist()} '
+                f'instead of {g_before.tolist()} (hidden per-object state)')
+    return None
+
+def native_dtype_check(G, cls, names, x, T):
+    """the functional form is handed the caller's array as is (int unit vectors, float32 storage): same values as the object"""
+    if not isinstance(x, np.ndarray): return None
+    idx = [int(i) for i in G._index]
+    if float(np.sum(np.asarray(x, float)[idx])) == 0.: return None
+    keep = x.copy()
+    g_obj = np.asarray(G(x, T), float)
+    r = G.f(x, T, *G.args)
+    g_fun = np.asarray(r, float)
+    if not np.array_equal(x, keep):
+        return f'x-modified: {cls} model on {names}: .f changed the caller\'s {x.dtype} array {keep.tolist()} -> {x.tolist()}'
+    if not close(g_fun, g_obj, 1e-12):
+        return (f'f-differs: {cls} model on {names}, x={keep.tolist()} ({x.dtype} array), T={T}: obj.f(x, T, *obj.args) = {g_fun.tolist()} '
+                f'(dtype {np.asarray(r).dtype}) but obj(x, T) = {g_obj.tolist()}')
+    return None
+
 def reuse_buffer_check(G, cls, names, comps, T):
     """obj(x, T) with ONE float64 buffer rewritten in place between calls at the same T must equal
     obj.f(x, T, *obj.args) and obj(fresh copy, T) at every step, and leave the buffer alone."""
@@ -714,7 +798,24 @@ def _oracle(case):
         cls = case['cls']
         arrays = [np.array(a, float) for a in case['arrays']]
         results = []
-        for k, op in enumerate(case['ops']):
+        if type(G) is ac.IdealActivityCoefficients:
+            ops = hist_ops(G, case); snap = {}
+        else:
+            ops = hist_ops(G, case); snap = state_snapshot(G)
+        for k, op in enumerate(ops):
+            if op[0] == 'act':
+                idx = [int(i) for i in G._index]
+                v = np.array(op[1], float); T = op[2]
+                full = np.zeros(len(case['chems'])); full[idx] = v
+                ref = np.asarray(G.f(full, T, *G.args), float)[idx]
+                ga = np.asarray(G.activity_coefficients(v.copy(), T), float)
+                results.append(ga)
+                msg = state_changed(G, snap, cls, case['chems'], f'step {k} (activity_coefficients)')
+                if msg: return msg
+                if not close(ga, ref, 1e-9):
+                    return (f'object-form: {cls} model on {case["chems"]}: step {k} activity_coefficients({v.tolist()}, {T}) = {ga.tolist()} '
+                            f'but the functional form gives {ref.tolist()}')
+                continue
             if op[0] == 'set':
                 arrays[op[1]][:] = op[2]; continue
             if op[0] == 'setres':
@@ -736,9 +837,13 @@ def _oracle(case):
                 return (f'history: {cls} model on {case["chems"]}: step {k} ({op[0]}) at T={T}, x={keep.tolist()} returns '
                         f'{g.tolist()} but the state-free obj.f on a fresh array gives {ref.tolist()} (hidden per-object state '
                         f'or a returned array shared between calls)')
+        msg = state_changed(G, snap, cls, case['chems'], 'the history of evaluations')
+        if msg: return msg
         comps = [a for a in case['arrays']] + [op[2] for op in case['ops'] if op[0] == 'set']
         Ts = [op[3] if op[0] == 'call' else op[2] for op in case['ops'] if op[0] in ('call', 'f')]
-        return reuse_buffer_check(G, cls, case['chems'], comps, Ts[0] if Ts else 335.)
+        msg = reuse_buffer_check(G, cls, case['chems'], comps, Ts[0] if Ts else 335.)
+        if msg or type(G) is ac.IdealActivityCoefficients: return msg
+        return object_form_check(G, cls, case['chems'], comps[0], Ts[0] if Ts else 335.)
     if case['kind'] == 'ideal':
         chems = [e['chems'][n] for n in case['chems']]
         x = np.array(case['x'], float); x0 = x.copy()
@@ -776,6 +881,10 @@ def _oracle(case):
                     f'{np.asarray(g).tolist()} instead of ones (a returned array that an earlier caller rewrote in place is handed out again?)')
         return reuse_buffer_check(G, cls, case['chems'], [x0, np.roll(x0, 1)], T)
     idx = [int(i) for i in G._index]
+    snap = state_snapshot(G)
+    if np.all(x0 >= 0) and x0.sum() > 0 and not np.all(np.isfinite(g)):
+        return (f'non-finite: {cls} model on {case["chems"]} at x={x0.tolist()}, T={T}: coefficients {g.tolist()} '
+                f'(members without group data and an empty sub-composition must give ones)')
     # 2. no group data => exactly one
     for i in range(n):
         if i not in idx and g[i] != 1.:
@@ -785,6 +894,9 @@ def _oracle(case):
     if float(np.sum(xf[idx])) != 0.:
         gf = np.asarray(G.f(xf, T, *G.args), float)
         if not close(gf, g, 1e-12): return f'f-differs: {cls} Gamma.f gives {gf.tolist()} but Gamma(x, T) gives {g.tolist()}'
+    # 3a. the functional form on the caller's own array type (int unit vectors, float32 storage)
+    msg = native_dtype_check(G, cls, case['chems'], real_x(case), T)
+    if msg: return msg
     # the remaining clauses are stated on the simplex (x >= 0, sum 1)
     if np.any(x0 < 0) or x0.sum() == 0: return None
     xs = x0 / x0.sum()
@@ -794,12 +906,20 @@ def _oracle(case):
     comps = [c for c in comps if float(np.sum(c[idx])) != 0.]
     msg = reuse_buffer_check(G, cls, case['chems'], comps, T)
     if msg: return msg
-    # 4. pure limit: gamma_i -> 1 as x_i -> 1
+    # 3c. the object form (activity_coefficients) and what it leaves behind
+    msg = object_form_check(G, cls, case['chems'], xs, T)
+    if msg: return msg
+    # 4. pure limit: gamma_i -> 1 as x_i -> 1 (object, and functional form on an integer unit vector)
     for i in idx:
         v = np.zeros(n); v[i] = 1.
         gi = safe_eval(G, v, T)
         if not abs(gi[i] - 1.) <= 1e-9:
             return f'pure-limit: {cls} model on {case["chems"]}: gamma of {case["chems"][i]} at x_i = 1 is {gi[i]!r}'
+        vi = np.zeros(n, dtype=int); vi[i] = 1
+        gf = np.asarray(G.f(vi, T, *G.args), float)
+        if not abs(gf[i] - 1.) <= 1e-9 or not close(gf, gi, 1e-12):
+            return (f'pure-limit: {cls} model on {case["chems"]}: functional form on the integer unit vector e_{i} gives {gf.tolist()} '
+                    f'(object: {gi.tolist()})')
     # 5. position independence: all (n <= 4) or a few permutations of the chemical list
     g_s = safe_eval(G, xs.copy(), T)
     perms = list(itertools.permutations(range(n))) if n <= 4 else [tuple(reversed(range(n))), tuple(list(range(1, n)) + [0])]
@@ -823,7 +943,7 @@ def _oracle(case):
             if abs(gd) > 1e-5 * max(1., scale):
                 return (f'gibbs-duhem: {cls} model on {case["chems"]} at x={xs.tolist()}, T={T}: sum x_i dln(gamma_i) along '
                         f'e_{a}-e_{b} = {gd:.3e} (scale {scale:.3e})')
-    return None
+    return state_changed(G, snap, cls, case['chems'], 'evaluating the model')
 
 def finding_key(case, msg):
     return 'C16:' + msg.split(':')[0] + ':' + str(case.get('cls', case['kind']))
